@@ -131,6 +131,10 @@ def run(ctx):
                 # allowed only if validate rebuilds it (checked above); still a smell: cross reference
                 ctx.xref("R10.2", loc(sinit, n), "temporal validator also constructed in __init__")
 
+    # ---------------- R10.4: every Delay-shifted group gets its own time point
+    ctx.rule("R10.4", "each Delay-shifted group is appended under an index computed afresh for that group")
+    delay_split_rule(ctx, "R10.4")
+
     # ---------------- R10.3
     bi = prog.find_class("BaseInput")
     entry = bi.methods.get("validate")
@@ -140,3 +144,26 @@ def run(ctx):
     ctx.floor("R10.3", "temporal keys", n, 10)
     ctx.check(vt in cg.reachable([entry], STRONG_KINDS), "R10.3", entry.qualname, "reach temporal pass", loc(entry, entry.node),
               "validate_temporal_relations is not reachable from BaseInput.validate", desc="BaseInput.validate reaches validate_temporal_relations")
+
+
+def delay_split_rule(ctx, rule):
+    """In split_delay_tags a row is appended with `table.loc[index] = row`; the index variable must be computed inside
+    the innermost loop that performs the store (one fresh index per appended group)."""
+    from sa.dom import loop_fresh
+    f = ctx.prog.find_function("df_util.split_delay_tags")
+    ctx.saw(f)
+    v = view(ctx, f)
+    n_st = 0
+    for n in v.cfg.nodes:
+        a = n.ast
+        if n.kind == "stmt" and isinstance(a, ast.Assign) and isinstance(a.targets[0], ast.Subscript) and \
+                isinstance(a.targets[0].value, ast.Attribute) and a.targets[0].value.attr in ("loc", "at") and \
+                isinstance(a.targets[0].slice, ast.Name) and isinstance(a.value, ast.Dict):
+            n_st += 1
+            nm = a.targets[0].slice.id
+            ctx.check(loop_fresh(v, n, nm), rule, f.qualname, a, loc(f, a),
+                      "the row index `%s` used to append a Delay-shifted group is not recomputed for every group: two delayed "
+                      "groups in one row are written to the same new row, so only the last one takes effect" % nm,
+                      desc="append index `%s` is fresh for every appended group" % nm)
+    if n_st == 0:
+        ctx.xref(rule, loc(f, f.node), "split_delay_tags no longer appends rows through `.loc[name] = {...}`")
